@@ -28,7 +28,7 @@ CCols == { [BaseCol EXCEPT !.key = kk[1], !.regex = kk[2], !.required = r, !.dty
              kk \in CKeys, r \in BOOLEAN }
 CColSeqs == { <<c>> : c \in CCols } \cup { p \in CCols \X CCols : p[1].key # p[2].key }
 InitContainer ==
-  \E n \in 0..MaxCols : \E labs \in [1..n -> CLabels] :
+  \E n \in 0..MaxCols : \E labs \in [1..n -> IF n <= 2 THEN CLabels \cup {sv(1)} ELSE CLabels] :      \* sv(1): the empty string, a falsy label
   \E cs \in CColSeqs : \E sf \in {"no", "yes"} : \E od \in BOOLEAN : \E u \in BOOLEAN : \E lz \in BOOLEAN :
      st = Start([BaseSchema EXCEPT !.cols = cs, !.strict = sf, !.ordered = od, !.ucn = u],
               Mk([ i \in 1..n |-> IntCol(labs[i], <<iv(1)>>) ], DefaultIdx(1)), lz, FALSE, AsIs)
